@@ -212,7 +212,7 @@ pub fn run(ctx: Ctx) -> i32 {
     let exclude_nested = report.known.is_open("C17", "protobuf-nested-lists");
     let exclude_list_in_choice = report.known.is_open("C17", "protobuf-list-in-choice");
     let bad = run_in_workers(&report, 16, std::time::Duration::from_secs(tier.pick(900, 10800)), &|report: &Report| {
-        let cfg = ValueCfg { big_weight: 0, max_big: 300, max_big_elems: 300, conformance: false, out_of_root: true, cap_open_types: false, hard_limit: None };
+        let cfg = ValueCfg { big_weight: 0, max_big: 300, max_big_elems: 300, conformance: false, out_of_root: true, cap_open_types: false, hard_limit: None, foreign_chars: false };
         report.ctx.my_shards(n_entries as u64).par_iter().for_each(|&k| {
             if report.too_many_violations() {
                 return;
